@@ -294,6 +294,38 @@ func c10Body(w *W) {
 	exploreHistories(w, hp)
 
 	lap("histories")
+	// (c2) SetNull addressed to a document's top-level container: the iterator Root() hands out
+	// afterwards has a scope that ends in a gap
+	w.Note("top-level containers nulled: SetNull on the top-level container of every document of every seed (each NDJSON line in turn); afterwards every root is marshalled from a fresh Root() iterator (plain and Buffer form) and from the tape iterator")
+	for _, seed := range editSeeds {
+		for _, c := range strModes() {
+			text := []byte(seed.text)
+			var docs []*ref.Node
+			if seed.nd {
+				docs, _ = ref.ParseND(text)
+			} else {
+				d, _ := ref.Parse(text)
+				docs = []*ref.Node{d}
+			}
+			for di := range docs {
+				w.res.States++
+				if !w.Mine() {
+					continue
+				}
+				pj, err, p := doParse(c, append([]byte(nil), text...), nil, seed.nd)
+				if err != nil || p != "" {
+					continue
+				}
+				w.res.Transitions++
+				w.res.Evaluations++
+				w.res.Validated++
+				if bad := c10TopLevelNull(pj, docs, di); bad != "" {
+					w.Violate(Violation{Harness: "C10-top-level-null", Fingerprint: "C10/top-level-null", What: bad, Case: []byte(fmt.Sprintf("%s#%d", seed.name, di)), CaseText: fmt.Sprintf("seed %s, SetNull on the top-level container of document %d", seed.name, di), Config: c.String()})
+				}
+			}
+		}
+	}
+	lap("toplevelnull")
 	// (d) non-finite floats: every marshal call covering the node must fail with no bytes
 	w.Note("non-finite floats: SetFloat(NaN, +Inf, -Inf) at every number/string position of every seed; the root marshal, the value's own marshal and every enclosing Array/Elements marshal must return an error and no bytes")
 	for si, seed := range editSeeds {
@@ -327,6 +359,61 @@ func c10Body(w *W) {
 			}
 		}
 	}
+}
+
+func c10TopLevelNull(pj *simdjson.ParsedJson, docs []*ref.Node, di int) (bad string) {
+	defer func() {
+		if r := recover(); r != nil {
+			bad = fmt.Sprintf("PANIC: %v", r)
+		}
+	}()
+	it, err := navigate(pj, vpath{di}, 0)
+	if err != nil {
+		return "cannot reach the top-level container: " + err.Error()
+	}
+	if err := it.SetNull(); err != nil {
+		return "SetNull on the top-level container: " + err.Error()
+	}
+	null := &ref.Node{K: ref.KNull}
+	for k := range docs {
+		want := docs[k]
+		if k == di {
+			want = null
+		}
+		fresh, err := navigate(pj, vpath{k}, 0)
+		if err != nil {
+			return fmt.Sprintf("Root() of document %d after the edit: %v", k, err)
+		}
+		fb := *fresh
+		out, err := fresh.MarshalJSON()
+		if err != nil {
+			return fmt.Sprintf("MarshalJSON of the iterator Root() hands out for document %d after SetNull on the top-level container of document %d: %v", k, di, err)
+		}
+		got, ok := parseAnyValue(out)
+		if !ok || !ref.NumericEqual(want, got) {
+			return fmt.Sprintf("the iterator Root() hands out for document %d marshals as %s after SetNull on the top-level container of document %d, want %s", k, clip(string(out)), di, clip(want.RenderNumeric()))
+		}
+		if s := bufferVariant("Root() iterator: Iter.MarshalJSON", out, fb.MarshalJSONBuffer); s != "" {
+			return s
+		}
+	}
+	root := pj.Iter()
+	out, err := root.MarshalJSON()
+	lines := strings.Split(strings.TrimRight(string(out), "\n"), "\n")
+	if err != nil || len(lines) != len(docs) {
+		return fmt.Sprintf("MarshalJSON of the tape after SetNull on the top-level container of document %d: %s (%v), want %d documents", di, clip(string(out)), err, len(docs))
+	}
+	for k, l := range lines {
+		want := docs[k]
+		if k == di {
+			want = null
+		}
+		got, ok := parseAnyValue([]byte(l))
+		if !ok || !ref.NumericEqual(want, got) {
+			return fmt.Sprintf("document %d marshals as %s after SetNull on the top-level container of document %d", k, clip(l), di)
+		}
+	}
+	return ""
 }
 
 func c10NonFinite(pj *simdjson.ParsedJson, docs []*ref.Node, p vpath, f float64) (what string) {
